@@ -99,8 +99,8 @@ def oracle_inproc(prog, req, env=None, with_values=True, feed_seed=0):
         [tuple(x) for x in exp[1]], [tuple(x) for x in exp[2]]
     ):
         feeds = feeds_for(prog, req, feed_seed)
-        want = lf.evaluate(prog, feeds, [i for _, i in req["outputs"]])
         try:
+            want = lf.evaluate(prog, feeds, [i for _, i in req["outputs"]])  # ValueError: custom-domain operators have no semantics
             res = lf.run_ort(got[1], {n: feeds[i] for n, i in req["inputs"]})
             values = (want, res)
         except Exception as e:  # noqa: BLE001 - a runtime refusing the model is not C03's business
@@ -193,7 +193,7 @@ def run(ck: core.Check):
     n_prog = ck.pick(900 if changed else 500, 3000)  # code the model covers was edited: look harder
     cases = []  # (prog, env, [reqs])
     for _ in range(n_prog):
-        prog = lf.gen_program(rng)
+        prog = lf.gen_program(rng, domains=(rng.random() < 0.2))  # a fifth with inlined custom-domain models (no runtime semantics)
         reqs = [lf.gen_request(rng, prog, allow_dup=(rng.random() < 0.15)) for _ in range(3)]
         if rng.random() < 0.3:
             odd = lf.gen_odd_request(rng, prog)
